@@ -68,6 +68,10 @@ func (c *OCSPRevocationChecker) IsRevoked(clientCertificate *x509.Certificate, v
 				c.logger.Debug("failed to parse ocsp server response", zap.String("ocsp_server", ocspServer), zap.Error(err))
 				continue
 			}
+			if ocspResponse.SerialNumber == nil || ocspResponse.SerialNumber.Cmp(clientCertificate.SerialNumber) != 0 {
+				c.logger.Debug("ocsp server response is not about the requested certificate", zap.String("ocsp_server", ocspServer))
+				continue
+			}
 			revocationStatus := core.RevocationStatus{
 				Revoked:      false,
 				OcspResponse: ocspResponse,
